@@ -15,6 +15,7 @@ import (
 	"golang.org/x/crypto/chacha20poly1305"
 	"pgregory.net/rapid"
 
+	"verif/harness/internal/clibaead"
 	"verif/harness/internal/ev"
 	"verif/harness/internal/gen"
 )
@@ -339,4 +340,14 @@ func structuredVariants(b []byte, lo, hi int) []variant {
 		})
 	}
 	return out
+}
+
+// sodiumOracle registers the optional libsodium differential on the collector.
+func sodiumOracle(c *ev.Collector, what string) bool {
+	if clibaead.Available() {
+		c.Oracle(clibaead.Version() + " " + what + " (cgo; cross-checks the reference, a disagreement between the two oracles is inconclusive)")
+		return true
+	}
+	c.Assumption("libsodium differential not available in this build (clib tag off or library missing): skipped")
+	return false
 }
